@@ -10,6 +10,7 @@ pub mod c10;
 pub mod c11;
 pub mod c14;
 pub mod c15;
+pub mod c16;
 pub mod common;
 
 pub fn by_id(id: &str) -> Option<Box<dyn Property>> {
@@ -24,6 +25,7 @@ pub fn by_id(id: &str) -> Option<Box<dyn Property>> {
         "C11" => Some(Box::new(c11::C11)),
         "C14" => Some(Box::new(c14::C14)),
         "C15" => Some(Box::new(c15::C15)),
+        "C16" => Some(Box::new(c16::C16)),
         _ => None,
     }
 }
